@@ -110,9 +110,26 @@ def obsVerdict (o : Obs α) (isMr : Bool) : Option String :=
   else if " ".intercalate o.str != RangeCollection.toString o.l then some "FAIL:toString"
   else none
 
-/-- verdict of the multi-range predicates on the implementation's answer -/
+/-- executable form of the component semantics `addK` (theorem `mr_refines`): the stored ranges
+that do not overlap `r` stay; the others are replaced by the hull of their union with `r`
+(computed with min / max, independently of the order in which the code expands and erases) -/
+def specAdd (prev : List (Range α)) (r : Range α) : List (Range α) :=
+  let ov := fun (x : Range α) => decide (r.b < x.e) && decide (x.b < r.e)
+  let h := (prev.filter ov).foldl (fun (h : Range α) x => ⟨min h.b x.b, max h.e x.e⟩) r
+  let rest := prev.filter (fun x => !ov x)
+  if h.b < h.e then rest.filter (fun x => decide (x.b < h.b)) ++ [h] ++ rest.filter (fun x => !decide (x.b < h.b))
+  else rest
+
+/-- executable form of `restrictK`: the non-empty intersections -/
+def specRestrict (prev : List (Range α)) (r : Range α) : List (Range α) :=
+  prev.filterMap (fun x =>
+    let lo := max x.b r.b; let hi := min x.e r.e
+    if lo < hi then some ⟨lo, hi⟩ else none)
+
+/-- verdict of the multi-range predicates on the implementation's answer; `expect` is the
+component semantics applied to the implementation's own previous answer -/
 def mrVerdict (sc : Nat) (impl : Option (List String)) (spec : Array Bool)
-    (filt : Option (List (Range α) × Range α)) : String :=
+    (filt : Option (List (Range α) × Range α)) (expect : Option (List (Range α)) := none) : String :=
   match impl with
   | none => "-"
   | some t =>
@@ -127,6 +144,7 @@ def mrVerdict (sc : Nat) (impl : Option (List String)) (spec : Array Bool)
         | none =>
           if !denotes sc o.l spec then "FAIL:mr_denotes"
           else if sc == 1 && o.len != (specLen spec : Nat) then "FAIL:mr_total_length"
+          else if (match expect with | some e => o.l != e | none => false) then "FAIL:mr_refines"
           else match obsVerdict o true with
             | some f => f
             | none => "ok"
@@ -171,7 +189,7 @@ def step (s : St α) (op : List String) (impl : Option (List String)) : St α ×
       let m := MultiRange.addRange s.mr[k]! r
       let sp := (s.spec[k]!).mapIdx (fun p v => v || cellIn sc r p)
       ({ s with mr := s.mr.set! k m, spec := s.spec.set! k sp, implMr := s.implMr.set! k (implList sc impl m) },
-        showColl sc m, mrVerdict (α := α) sc impl sp none)
+        showColl sc m, mrVerdict (α := α) sc impl sp none (some (specAdd s.implMr[k]! r)))
     | _, _, _ => (s, "bad-op", "-")
   | ["mr.restrict", k, a, b] =>
     match nat? k, int? a, int? b with
@@ -180,7 +198,7 @@ def step (s : St α) (op : List String) (impl : Option (List String)) : St α ×
       let m := MultiRange.restrictTo s.mr[k]! r
       let sp := (s.spec[k]!).mapIdx (fun p v => v && cellIn sc r p)
       ({ s with mr := s.mr.set! k m, spec := s.spec.set! k sp, implMr := s.implMr.set! k (implList sc impl m) },
-        showColl sc m, mrVerdict (α := α) sc impl sp none)
+        showColl sc m, mrVerdict (α := α) sc impl sp none (some (specRestrict s.implMr[k]! r)))
     | _, _, _ => (s, "bad-op", "-")
   | ["mr.filter", k, a, b] =>
     match nat? k, int? a, int? b with
@@ -328,15 +346,17 @@ def step (s : St α) (op : List String) (impl : Option (List String)) : St α ×
       let y := x.shift v
       let z := y.unshift v
       let w := (x.unshift v).shift v
-      let out := showC sc [y.b, y.e, y.length, z.b, z.e, (x.unshift v).length, w.b, w.e]
+      let out := showC sc [y.b, y.e, y.length, z.b, z.e, (x.unshift v).length, w.b, w.e,
+        z.b, z.e, (x.unshift v).length, w.b, w.e]
       -- `shift_length`: the length is preserved and the shifts are inverse to each other, also
       -- when an unsigned shift wraps around
       let verdict := match impl with
         | none => "-"
         | some t => match ints? t with
-          | some [_, _, yl, zb, ze, ul, wb, we] =>
+          | some [_, _, yl, zb, ze, ul, wb, we, pb, pe, ql, qb, qe] =>
             if (rd yl : α) == x.length && (rd ul : α) == x.length && (rd zb : α) == x.b && (rd ze : α) == x.e
-                && (rd wb : α) == x.b && (rd we : α) == x.e then "ok"
+                && (rd wb : α) == x.b && (rd we : α) == x.e && (rd pb : α) == x.b && (rd pe : α) == x.e
+                && (rd ql : α) == x.length && (rd qb : α) == x.b && (rd qe : α) == x.e then "ok"
             else "FAIL:shift_length"
           | _ => "FAIL:parse"
       (s, out, verdict)
